@@ -1,10 +1,80 @@
-(* C05 - MMR membership proofs stay exact through every history; verification exact. *)
+(* C05 - MMR membership proofs stay exact through every history; verification exact.
+   Model: coq/model/Mmr.v; specification: coq/spec/MmrSpec.v (path ls i = sibling digests from leaf i up to,
+   excluding, its peak; mp_verify_spec = what verification has to decide). *)
 From Coq Require Import ZArith List Bool.
 From TF Require Import Word MmrIdxLocal Mmr MmrSpec MmrTerm MmrProofs.
 Import ListNotations.
 Open Scope Z_scope.
 
-Theorem C05_placeholder_bag : forall (D : Type) (H : D -> D -> D) (hash0 : D) (peaks : list D),
-  bag_peaks D H hash0 peaks = bag_spec D H hash0 peaks.
-Proof. exact bag_peaks_spec. Qed.
-Print Assumptions C05_placeholder_bag.
+(* verify_iff: for ALL u64 (index, count), any path and any peak list (of fewer than 2^32 digests, see
+   ASSUMPTIONS) verification returns exactly: index < count /\ #peaks = #trees of count /\ |path| = height
+   of the leaf's tree /\ hashing the leaf up the path gives the peak covering the index *)
+Theorem C05_verify_iff : forall (D : Type) (H : D -> D -> D) (deq : D -> D -> bool) (dflt : D)
+    (ap : list D) (i : Z) (leaf : D) (peaks : list D) (n : Z),
+  0 <= i -> 0 <= n < 2 ^ 64 -> zlen peaks < 2 ^ 32 ->
+  mp_verify D H deq ap i leaf peaks n = Some (mp_verify_spec D H deq dflt ap i leaf peaks n).
+Proof. exact mp_verify_iff. Qed.
+Print Assumptions C05_verify_iff.
+
+Theorem C05_verify_never_panics : forall (D : Type) (H : D -> D -> D) (deq : D -> D -> bool) (dflt : D)
+    (ap : list D) (i : Z) (leaf : D) (peaks : list D) (n : Z),
+  0 <= i -> 0 <= n < 2 ^ 64 -> zlen peaks < 2 ^ 32 ->
+  mp_verify D H deq ap i leaf peaks n <> None.
+Proof. intros D H deq dflt. exact (mp_verify_total D H deq dflt). Qed.
+Print Assumptions C05_verify_never_panics.
+
+(* the authentication path of the specification verifies against the peaks of the specification *)
+Theorem C05_path_verifies : forall (D : Type) (H : D -> D -> D) (deq : D -> D -> bool) (dflt : D),
+  (forall x, deq x x = true) ->
+  forall (ls : list D) (i : Z), 0 <= i < zlength ls -> zlength ls < 2 ^ 64 ->
+  mp_verify D H deq (path D H dflt ls i) i (nth (Z.to_nat i) ls dflt) (peaks_spec D H dflt ls) (zlength ls) = Some true.
+Proof. exact path_verifies. Qed.
+Print Assumptions C05_path_verifies.
+
+(* append returns the authentication path of the new leaf *)
+Theorem C05_append_returns_path : forall (D : Type) (H : D -> D -> D) (dflt : D) (ls : list D) (d : D),
+  zlength ls + 1 < 2 ^ 63 ->
+  acc_append D H (zlength ls, peaks_spec D H dflt ls) d =
+  Some ((zlength (ls ++ [d]), peaks_spec D H dflt (ls ++ [d])), path D H dflt (ls ++ [d]) (zlength ls)).
+Proof. exact acc_append_spec. Qed.
+Print Assumptions C05_append_returns_path.
+
+Example C05_verify_example :
+  mp_verify term Node term_eqb [Atom 3; Node (Atom 0) (Atom 1)] 2 (Atom 2)
+            [Node (Node (Atom 0) (Atom 1)) (Node (Atom 2) (Atom 3)); Atom 4] 5 = Some true /\
+  mp_verify term Node term_eqb [Atom 3] 2 (Atom 2)
+            [Node (Node (Atom 0) (Atom 1)) (Node (Atom 2) (Atom 3)); Atom 4] 5 = Some false.
+Proof. vm_compute. split; reflexivity. Qed.
+
+(* FULL statements of the update-routine theorems.  They are NOT proved yet (they need the node-index
+   theory of C16: post-order index <-> (block, height)); meanwhile the correspondence check compares every
+   routine with the model on histories AND the oracle checks the model's output against `path` / the exact
+   `modified` set after every operation (SPECDIFF). *)
+Definition C05_update_from_append_full : Prop :=
+  forall (D : Type) (H : D -> D -> D) (dflt : D) (ls : list D) (d : D) (i : Z),
+    0 <= i < zlength ls -> zlength ls + 1 < 2 ^ 63 ->
+    update_from_append D H (path D H dflt ls i) i (zlength ls) d (peaks_spec D H dflt ls) =
+    Some (path D H dflt (ls ++ [d]) i,
+          negb (zlength (path D H dflt (ls ++ [d]) i) =? zlength (path D H dflt ls i))).
+
+Definition C05_update_from_leaf_mutation_full : Prop :=
+  forall (D : Type) (H : D -> D -> D) (dflt : D) (ls : list D) (i j : Z) (d : D),
+    0 <= i < zlength ls -> 0 <= j < zlength ls -> zlength ls < 2 ^ 63 ->
+    exists b, update_from_leaf_mutation D H (path D H dflt ls i) i (j, d, path D H dflt ls j) =
+              Some (path D H dflt (upd ls j d) i, b).
+
+Definition C05_batch_mutate_full : Prop :=
+  forall (D : Type) (H : D -> D -> D) (deq : D -> D -> bool) (dflt : D),
+    (forall x y, deq x y = true <-> x = y) ->
+    forall (ls : list D) (idxs : list Z) (ms : list (Z * D)),
+      zlength ls < 2 ^ 63 -> Forall (fun i => 0 <= i < zlength ls) idxs ->
+      distinctb (map fst ms) = true -> Forall (fun m => 0 <= fst m < zlength ls) ms ->
+      exists modified,
+        batch_mutate_leaf_and_update_mps D H deq (zlength ls, peaks_spec D H dflt ls)
+          (map (path D H dflt ls) idxs) idxs (map (fun m => (fst m, snd m, path D H dflt ls (fst m))) ms) =
+        Some ((zlength ls, peaks_spec D H dflt (apply_muts D ls ms)),
+              map (path D H dflt (apply_muts D ls ms)) idxs, modified) /\
+        (* exactly the positions whose proof changed, ascending, without repeats *)
+        forall p, In p modified <->
+                  exists i, nth_error idxs (Z.to_nat p) = Some i /\ 0 <= p /\
+                            path D H dflt (apply_muts D ls ms) i <> path D H dflt ls i.
